@@ -4,6 +4,7 @@
 //  Distributed under the Boost Software License, Version 1.0. (See accompanying
 //  file LICENSE_1_0.txt or copy at http://www.boost.org/LICENSE_1_0.txt)
 
+#include <pika/config/verif_hooks.hpp>
 #include <pika/assert.hpp>
 #include <pika/functional/bind.hpp>
 #include <pika/functional/bind_front.hpp>
@@ -207,8 +208,13 @@ namespace pika {
         {
             // wait for thread to be terminated
             detail::unlock_guard ul(l);
+            PIKA_VERIF_POINT(::pika::verif::join_between, this, 1);
             this_thread::suspend(threads::detail::thread_schedule_state::suspended, "thread::join");
         }
+
+#if defined(PIKA_VERIF_HOOKS)
+        else { PIKA_VERIF_POINT(::pika::verif::join_between, this, 0); }
+#endif
 
         detach_locked();    // invalidate this object
     }
